@@ -38,7 +38,13 @@ ASSUMPTIONS = [
     'delivered before the jobs-submit command that launched it has returned '
     '("started" may overtake the submit callback).',
     'Messages are never lost (loss is not in the statement); polls are '
-    'truthful for their launch instant.',
+    'truthful for their launch instant and may return late; like a final '
+    'message, a poll does not report the end of a job before the '
+    'jobs-submit command that launched it has returned.',
+    'A final-state mismatch whose last status change was made on a stale '
+    'poll result (the job emitted more after the poll looked at it) is '
+    'reported under ":stale-poll-result-believed" (known finding); every '
+    'other mismatch keeps the plain signature.',
     'No manual intervention except polls.',
 ]
 
@@ -161,6 +167,12 @@ async def _check(case, ctx: Ctx) -> CaseResult:
                             final[(t['name'], t['cycle'])] = (
                                 t['status'], set(t['outputs']))
                         break
+            last_change = {}
+            for ev in sim.trace:
+                if ev['k'] == 'state' and ev['before'][0] != ev['after'][0]:
+                    last_change[(ev['name'], ev['cycle'])] = ev
+                    if ev.get('stale_poll'):
+                        classes.add('stale-poll-result-changed-status')
             latest = {}
             for (cyc, name, sn) in sim.journal:
                 latest[(name, cyc)] = max(latest.get((name, cyc), 0), sn)
@@ -174,10 +186,22 @@ async def _check(case, ctx: Ctx) -> CaseResult:
                 if want is None:
                     continue
                 if status != want or want not in outs:
+                    sig = 'C10:final-state-differs-from-latest-job'
+                    note = ''
+                    last = last_change.get((name, cyc))
+                    if last is not None and last.get('stale_poll'):
+                        # root cause apart: the last status change was made
+                        # on a poll result older than the job's last message
+                        sig += ':stale-poll-result-believed'
+                        note = (f'; last status change {last["before"][0]} '
+                                f'-> {last["after"][0]} at iteration '
+                                f'{last["it"]} was made on a late poll '
+                                f'result')
                     viol.append(Violation(
-                        'C10:final-state-differs-from-latest-job',
+                        sig,
                         f'{cyc}/{name}: latest job {sn:02d} ended {want}; '
-                        f'task is {status} with outputs {sorted(outs)}'))
+                        f'task is {status} with outputs {sorted(outs)}'
+                        f'{note}'))
         uniq = {}
         for v in viol:
             uniq.setdefault(v.sig, v)
